@@ -140,9 +140,10 @@ package checkers
 //@   call runRuleguardEngine requires @same-context-and-engine arg0 == c.ctx && arg1 == f && arg2 == c.engine
 
 //@ func (*ruleguardChecker).WalkFile
-//@   prop C03 C18
+//@   prop C03 C18 C15
 //@   nosafety the context is non-nil by construction
 //@   requires c != nil && c.ctx != nil && c.ctx.Context != nil
+//@   call runRuleguardEngine requires @go-version-handed-over arg3.GoVersion.Major == c.ctx.GoVersion.Major && arg3.GoVersion.Minor == c.ctx.GoVersion.Minor
 //@   call runRuleguardEngine requires @run-context-is-current-and-per-file arg3 != nil && fresh(arg3) && arg3.Pkg == c.ctx.Pkg && arg3.Types == c.ctx.TypesInfo && arg3.Sizes == c.ctx.SizesInfo && arg3.Fset == c.ctx.FileSet
 //@   call runRuleguardEngine requires @same-context-and-engine arg0 == c.ctx && arg1 == f && arg2 == c.engine && c.engine != nil
 
